@@ -85,6 +85,9 @@ func vGenValue(tag string) *gnmi.TypedValue {
 	return &gnmi.TypedValue{Value: &gnmi.TypedValue_ProtoBytes{ProtoBytes: []byte(s)}}
 }
 
+// vNoSync: the harness does not generate the SYNCHRONOUS strategy (a synchronous Get waits in goroutines)
+var vNoSync bool
+
 // vGenExtensions: none, a well-formed strategy (sync or async), well-formed overrides, garbage bytes under either id,
 // an unrelated id, or a non-registered extension
 func vGenExtensions(tag string) []*gnmi_ext.Extension {
@@ -98,7 +101,7 @@ func vGenExtensions(tag string) []*gnmi_ext.Extension {
 		return nil
 	case 1:
 		st := &configapi.TransactionStrategy{}
-		if verifrt.NondetBool(tag + ".sync") {
+		if !vNoSync && verifrt.NondetBool(tag+".sync") {
 			st.Synchronicity = configapi.TransactionStrategy_SYNCHRONOUS
 		}
 		b, _ := proto.Marshal(st)
